@@ -506,7 +506,7 @@ func run(c Case) string {
 
 func TestList(t *testing.T) {
 	const sub = "list"
-	n := harness.PerShard(harness.Scale(20_000, 2_000_000))
+	n := harness.PerShard(harness.Scale(20_000, 10_000_000))
 	harness.Check(t, sub, n, func(rt *rapid.T) Case {
 		c := ListCase{Items: rapid.IntRange(0, 12).Draw(rt, "items"), Height: rapid.IntRange(0, 6).Draw(rt, "height")}
 		k := rapid.IntRange(1, 20).Draw(rt, "nops")
@@ -531,7 +531,7 @@ func TestList(t *testing.T) {
 
 func TestDynamic(t *testing.T) {
 	const sub = "dynamic"
-	n := harness.PerShard(harness.Scale(150_000, 8_000_000))
+	n := harness.PerShard(harness.Scale(150_000, 40_000_000))
 	heights := func(rt *rapid.T, label string) []int {
 		k := rapid.IntRange(0, 12).Draw(rt, label+"-n")
 		var hs []int
@@ -574,7 +574,7 @@ func TestDynamic(t *testing.T) {
 
 func TestPager(t *testing.T) {
 	const sub = "pager"
-	n := harness.PerShard(harness.Scale(12_000, 1_000_000))
+	n := harness.PerShard(harness.Scale(12_000, 5_000_000))
 	harness.Check(t, sub, n, func(rt *rapid.T) Case {
 		// (a wide character cannot be shown in a one-column window at all)
 		c := PagerCase{Width: rapid.IntRange(2, 8).Draw(rt, "w"), Height: rapid.IntRange(0, 5).Draw(rt, "h")}
